@@ -22,11 +22,24 @@ def read_bytes(path):
 
 
 def stat_sig(path):
+    """Identity of what a user finds at `path`: the file it resolves to (inode, size,
+    mtime) and -- when the path itself is a symbolic link -- the link (its inode and
+    target), so that replacing or removing a link counts as touching the path."""
+    try:
+        lst = os.lstat(path)
+    except OSError:
+        return None
+    link = None
+    if (lst.st_mode & 0o170000) == 0o120000:
+        link = [lst.st_ino, os.readlink(path)]
     try:
         st = os.stat(path)
     except OSError:
-        return None
-    return [st.st_ino, st.st_size, st.st_mtime_ns]
+        return [None, None, None, link]
+    sig = [st.st_ino, st.st_size, st.st_mtime_ns]
+    if link is not None:
+        sig.append(link)
+    return sig
 
 
 def outcome_of_exception(exc):
